@@ -189,6 +189,10 @@ fn main() {
     for (id, c) in &compiler {
         spellings.entry(*id).or_default().push(("compiler".to_owned(), c.clone()));
         spellings.entry(*id).or_default().push(("compiler_spaced".to_owned(), c.replace('<', " < ").replace(',', " ,")));
+        // every token separated, the way TokenStream::to_string() prints a type
+        let tokens = c.replace("::", " :: ").replace('<', " < ").replace('>', " > ").replace(',', " , ");
+        spellings.entry(*id).or_default().push(("compiler_tokens".to_owned(), tokens));
+        spellings.entry(*id).or_default().push(("compiler_path_spaced".to_owned(), c.replace("::", " ::")));
     }
     types::all(&mut PassLookup { out: &mut out, table: &table, spellings: &spellings, phase: "registered" });
     let (table2, n) = reload(&table);
